@@ -114,7 +114,7 @@ def run_check(prop, tier, batch_seed, workers, runs_override=None, budget_overri
         n = runs_override or leg[tier]["runs"]
         budget = budget_override or leg[tier].get("budget_s")
         tw = time.time()
-        results, stopped = core.run_batch(wname, prop, tier, batch_seed, n, workers, leg.get("run_timeout", 120), budget_s=budget, chunk=leg.get("chunk"))
+        results, stopped = core.run_batch(wname, prop, tier, batch_seed, n, workers, leg.get("run_timeout", 120), budget_s=budget, chunk=leg[tier].get("chunk", leg.get("chunk")))
         all_results[wname] = results
         wstats = collections.Counter()
         for c in results:
@@ -148,7 +148,7 @@ def run_check(prop, tier, batch_seed, workers, runs_override=None, budget_overri
     det_ok, det_msg = True, "skipped"
     if not os.environ.get("FSIM_SKIP_DETERMINISM"):
         try:
-            det_ok, det_msg = determinism_selftest(prop, tier, batch_seed, all_results)
+            det_ok, det_msg = determinism_selftest(prop, tier, batch_seed, all_results, sample=plan.get("det_sample", 4))
         except Exception:
             det_ok, det_msg = False, traceback.format_exc()
     # ---- violations: shrink, write replay, confirm in fresh interpreter
